@@ -543,7 +543,7 @@ pub fn models(tier: Tier, seed: u64) -> Vec<Box<dyn DynModel>> {
 
 pub fn describe(tier: Tier, r: &mut Report) {
     let (small, big) = tn_grid(tier);
-    r.rule = "share-collection machine per (group, scheme in {Basic, Pop}, (t,n)): state = sequence of share identifiers collected; actions append a not-yet-present identifier (every subset once in ascending order, plus every ordering of subsets of size <= 4 for n <= 5) or apply one fault (duplicate, zero identifier, share of a second split, share of the other scheme, corrupt payload, transport through a codec, reverse order). Every state recombines the secret key, the public key and the signature and checks them against the whole-key results, the threshold rule and an independent Lagrange interpolation; the root state of each instance checks the full partial-signature x key-share matrix. Large (t,n) use named subsets (first t, last t, t-1, all, strided). Dedup key = the ordered sequence + fault, i.e. only literally identical states merge".into();
+    r.rule = "share-collection machine per (group, scheme in {Basic, Pop}, (t,n)): state = sequence of share identifiers collected; actions append a not-yet-present identifier (every subset once in ascending order, plus every ordering of subsets of size <= 4 for n <= 5) or apply one fault (duplicate, zero identifier, share of a second split, share of the other scheme, corrupt payload, transport through a codec, reverse order, an unfilled placeholder slot with identifier 0 and empty or all-zero payload inserted at any position). Every state recombines the secret key, the public key and the signature and checks them against the whole-key results, the threshold rule and an independent Lagrange interpolation; the root state of each instance checks the full partial-signature x key-share matrix. Large (t,n) use named subsets (first t, last t, t-1, all, strided). Dedup key = the ordered sequence + fault, i.e. only literally identical states merge".into();
     r.deviation_bound_completed = "1 fault on every collected set".into();
     r.alphabet.insert("small_grid".into(), serde_json::json!(small));
     r.alphabet.insert("large_grid".into(), serde_json::json!(big));
